@@ -156,6 +156,25 @@ CHECKS.update({
     ),
 })
 
+CHECKS.update({
+    "C16": dict(
+        text="Lean theorems: for every valid object-class, attribute-type and DIT-content-rule description (numeric OID, descriptor names, OID "
+             "lists, any non-empty description / extension strings of any code points, all flags, kind, usage, syntax length) the text form is a "
+             "sentence of the RFC 4512 grammar denoting it, hence parse (toText d) = d. The regular-expression match of from_string is modelled by a "
+             "deterministic scanner; that scanner is tied to the code by correspondence on generated, mutated and random strings.",
+        technique="Lean 4 proof (text form is a grammar sentence + C17) + correspondence",
+        ref="DESIGN.md §4 C16",
+    ),
+    "C17": dict(
+        text="Lean theorems: the three RFC 4512 description grammars are transcribed as relations between a definition and a sentence (any WSP/SP "
+             "counts, bare or parenthesised qdescrs/oids/qdstrings, \\5c or \\5C, X- or x-, explicit or omitted defaults, the quoted SYNTAX of Active "
+             "Directory); every sentence parses to exactly the definition it denotes; totality over all strings is by construction in the model "
+             "(single error constructor) and is what the correspondence on mutated / random strings checks on the implementation.",
+        technique="Lean 4 proof (scanner vs grammar relation, part by part) + correspondence + generated-sentence search",
+        ref="DESIGN.md §4 C17",
+    ),
+})
+
 NOT_YET = {
 }
 
